@@ -2,8 +2,9 @@
  * (bin/gensquashfs/src/sort_by_file.c) - the sort-file line parser - on
  * every line of LEN bytes (fully symbolic, NUL-terminated at [LEN] as
  * istream_get_line delivers it, sentinel behind it). PART selects the
- * function. parse_int, canonicalize_name are their contracts; split_line and
- * trim are the real ones (lib/util) for decode_flags.
+ * function. parse_int, canonicalize_name and split_line (harness split_line)
+ * are their contracts - chaining the real split_line into decode_flags does
+ * not finish -; trim is the real one (lib/util/src/get_line.c).
  *
  *  C07.sort.status_domain   0 or -1
  *  C07.sort.in_place        the line is still NUL-terminated inside its
@@ -17,7 +18,6 @@
  */
 #include "verif.h"
 #include "bin/gensquashfs/src/sort_by_file.c"
-#include "lib/util/src/split_line.c"
 #include "lib/util/src/get_line.c"
 
 #ifndef LEN
@@ -55,6 +55,45 @@ int canonicalize_name(char *filename)
 	if (verif_nd_bool("canon.shrink"))
 		filename[0] = '\0';
 	return 0;
+}
+
+/* contract of split_line (harness split_line): in place, touches at most
+ * line[0..len], tokens are NUL-terminated inside line[0..len]; here at most
+ * two tokens */
+typedef struct {
+	split_line_t s;
+	char *slots[2];
+} split_box_t;
+
+int split_line(char *line, size_t len, const char *sep, split_line_t **out)
+{
+	size_t off = VERIF_POINTER_OFFSET(line), o, e, c, i;
+	split_box_t *b;
+
+	VERIF_ASSERT(VERIF_SAME_OBJECT(line, g_line) && off + len <= LEN &&
+		     sep[0] == ',' && sep[1] == '\0', "C07.sort.split_pre");
+	VERIF_ASSUME(off + len <= LEN);
+	if (verif_nd_bool("split.fail"))
+		return verif_nd_bool("split.esc") ? SPLIT_LINE_ESCAPE :
+			SPLIT_LINE_UNMATCHED_QUOTE;
+	b = malloc(sizeof(*b));
+	if (b == NULL)
+		return SPLIT_LINE_ALLOC;
+	c = verif_nd_size("split.count");
+	VERIF_ASSUME(c <= 2 && 2 * c <= len + 1);
+	b->s.count = c;
+	o = 0;
+	for (i = 0; i < 2 && i < c; ++i) {
+		o = o + verif_nd_size("split.tok");
+		VERIF_ASSUME(o <= len);
+		e = verif_nd_size("split.end");
+		VERIF_ASSUME(e >= o && e <= len);
+		line[e] = '\0';
+		b->s.args[i] = line + o;
+		o = e;
+	}
+	*out = &b->s;
+	return SPLIT_LINE_OK;
 }
 
 /* reached from the rest of sort_by_file.c only */
